@@ -1,9 +1,10 @@
 #!/bin/sh
 # Re-runs every calibration mutant and every seeded change against its target check(s), quick tier.
 # Prints one line per (change, check); a line with violations=0 is a miss.
+# usage: tools/regression.sh [glob over seeded/]   (with a glob the calibration mutants are skipped)
 cd "$(dirname "$0")/.."
-tools/mutant-matrix.sh 2>&1 | grep '^MUTANT'
-for d in seeded/*/; do
+[ $# -eq 0 ] && tools/mutant-matrix.sh 2>&1 | grep '^MUTANT'
+for d in seeded/${1:-*}/; do
 	n=$(basename "$d"); id=$(echo "$n" | cut -c1-3)
 	extra=""
 	[ "$n" = "C07-r2" ] && extra="C12"
